@@ -95,6 +95,10 @@ def evaluate(case):
                 res.labels.append("parseargs:nested-def")
             else:
                 res.labels.append("parseargs:direct")
+    for it, _, par in funcs:
+        if par is not None and par["k"] == "func" and (par["cmd"], par["name"], par["params"]) == (it["cmd"], it["name"], it["params"]):
+            after = par["body"][par["body"].index(it) + 1:]
+            res.labels.append("nested-redefinition-of-enclosing" + (":parseargs-after" if any(x["k"] == "parseargs" for x in after) else ""))
     strip_hits = False
     for it, _, _ in funcs:
         pat = ms.strip[it["cmd"]]
